@@ -248,7 +248,7 @@ def run(rep):
     core.import_rules(rep, "c10", {"T-FIND", "STEP-TOTAL", "INDEX", "NO-OVERRIDE"})
     # the key a predicate asks the document for is the key as written in the rule (modifier stripped, words joined back): a key built any
     # other way is a key the rule does not name
-    core.import_rules(rep, "c02", {"K-MOD"})
+    core.import_rules(rep, "c02", {"K-MOD", "T-IDENT-CLASS"})
     rep.floor("PROV-DOC", 24)
     rep.floor("PROV-MATRIX", 4)
     rep.floor("PROV-CACHE", 6)
